@@ -144,9 +144,9 @@ func init() {
 				case 2:
 					wits = append(wits, shared+":"+hxs("refs/heads/main:dir/file"))
 				default:
-					rels := []string{"", "refs/heads/master", "HEAD^{tree}", "refs/tags/v1:a b/c\"d", "refs/heads/ü", "x\ny", "[7]", "a|b"}
+					rels := []string{"", "refs/heads/master", "HEAD^{tree}", "refs/tags/v1:a b/c\"d", "refs/heads/ü", "HEAD:caf\xe9.txt", "HEAD:a\x01b", "HEAD:del\x7f\vq", "HEAD:\xf0\x9f\x98\x80\xed\xa0\x80", "x\ny", "[7]", "a|b"}
 					if !nastyW {
-						rels = rels[:5]
+						rels = rels[:9]
 					}
 					rel := rels[r.n(len(rels))]
 					wits = append(wits, hex40(r)+":"+hxs(rel))
